@@ -159,3 +159,50 @@ Proof.
     destruct (zget2 true m i j); reflexivity. }
   rewrite MD, MN, ZD, ZN. reflexivity.
 Qed.
+
+Lemma existsb_false_intro {X} (f : X -> bool) (l : list X) : (forall x, In x l -> f x = false) -> existsb f l = false.
+Proof.
+  intros HF. destruct (existsb f l) eqn:E; [|reflexivity]. apply existsb_exists in E. destruct E as (x & Hx & Fx).
+  rewrite (HF x Hx) in Fx. discriminate.
+Qed.
+Lemma In_zrange_inv lo hi v : In v (zrange lo hi) -> lo <= v < hi.
+Proof. unfold zrange. intros HI. apply in_map_iff in HI. destruct HI as (i & <- & Hi). apply in_seq in Hi. lia. Qed.
+
+(* when every footprint is inside the frame the blurring-mask test does not raise *)
+Lemma footprint_inside_not_raises (m : list (list bool)) H W k0 k1 :
+  rectb H W m = true -> 0 < H -> Z.odd k0 = true -> Z.odd k1 = true -> 1 <= k0 -> 1 <= k1 ->
+  footprint_inside m (k0, k1) = true -> blurring_raises m (k0, k1) = false.
+Proof.
+  intros HM HP O0 O1 Hk0 Hk1 HF. pose proof (Entries_self true _ _ _ HM HP) as XM.
+  destruct (Entries_shape _ _ _ _ XM HP) as [S0 S1]. pose proof XM as (_ & HW & [HL HC] & _).
+  assert (C0 : k0 - 1 = 2 * ((k0 - 1) / 2)) by (rewrite Z.odd_spec in O0; destruct O0 as [q ->]; zdiv).
+  assert (C1 : k1 - 1 = 2 * ((k1 - 1) / 2)) by (rewrite Z.odd_spec in O1; destruct O1 as [q ->]; zdiv).
+  unfold footprint_inside in HF. rewrite forallb_forall in HF. rewrite S0, S1 in HF. cbn [fst snd] in HF.
+  set (c0 := (k0 - 1) / 2) in *. set (c1 := (k1 - 1) / 2) in *.
+  unfold blurring_raises. cbn [fst snd]. rewrite S0, S1.
+  rewrite <- Z.negb_odd, O0, <- Z.negb_odd, O1. cbn [negb orb].
+  assert (LO0 : (- k0 + 1) / 2 = - c0) by zdiv. assert (HI0 : (k0 + 1) / 2 = c0 + 1) by zdiv.
+  assert (LO1 : (- k1 + 1) / 2 = - c1) by zdiv. assert (HI1 : (k1 + 1) / 2 = c1 + 1) by zdiv.
+  rewrite LO0, HI0, LO1, HI1.
+  apply existsb_false_intro. intros y Hy. apply in_seq in Hy. apply existsb_false_intro. intros x Hx. apply in_seq in Hx.
+  rewrite hd_nth0, HC in Hx by lia.
+  destruct (get2 true m y x) eqn:G; [reflexivity|].
+  assert (Hin : In (Z.of_nat y, Z.of_nat x) (unmasked_coords m)).
+  { apply (In_unmasked _ _ _ _ _ _ XM). repeat split; try lia. unfold zget2. now rewrite !Nat2Z.id. }
+  specialize (HF _ Hin). cbn [fst snd] in HF. boolp.
+  apply existsb_false_intro. intros y1 Hy1. apply In_zrange_inv in Hy1.
+  apply existsb_false_intro. intros x1 Hx1. apply In_zrange_inv in Hx1.
+  apply negb_false_iff. rewrite !andb_true_iff. repeat split; apply Z.leb_le; lia.
+Qed.
+
+(* the automatic padding happens exactly when some unmasked pixel's blurring footprint leaves the frame *)
+Lemma blurring_raises_iff (m : list (list bool)) H W k :
+  rectb H W m = true -> 0 < H -> odd_kernel k = true -> blurring_raises m k = negb (footprint_inside m k).
+Proof.
+  intros HM HP HK. destruct k as [k0 k1]. unfold odd_kernel in HK. cbn [fst snd] in HK. boolp.
+  destruct (footprint_inside m (k0, k1)) eqn:EF; cbn [negb].
+  - apply (footprint_inside_not_raises m H W); assumption || lia.
+  - destruct (blurring_raises m (k0, k1)) eqn:EB; [reflexivity|].
+    assert (X : footprint_inside m (k0, k1) = true) by (apply (not_raises_footprint_inside m H W k0 k1); assumption || lia).
+    congruence.
+Qed.
